@@ -35,11 +35,7 @@ RULE = ("case = one point of the union of eleven complete sub-lattices (op / bat
         "except gmres; zero right-hand side => exact zeros; slices agree with the batched result.  Agreement "
         "with torch.linalg.solve and between methods is implied by the residual bound (error <= bound / "
         "sigma_min) and is evaluated as such.  distinct = distinct observation hashes; trivial = rejected points")
-RULE_ADDED = ('Planes added later: mix (two systems of very different conditioning and right-hand-side norm in one '
-              'call, as batch elements or as shifted columns); rhs plane with E / M batch dimensions that A and B d'
-              'o not have; call-order plane in fresh interpreters. Round 4: budget (cg with default / exact iterati'
-              'on budgets on tiny HPD systems), sing (exactly singular large batch element next to a well-condition'
-              'ed small one), right-hand side of norm 1e-9 in the scale plane.')
+RULE_ADDED = 'Planes added later: mix (two systems of very different conditioning and right-hand-side norm in one call, as batch elements or as shifted columns); rhs plane with E / M batch dimensions that A and B do not have; call-order plane in fresh interpreters. Round 4: budget (cg with default / exact iteration budgets on tiny HPD systems), sing (exactly singular large batch element next to a well-conditioned small one), right-hand side of norm 1e-9 in the scale plane. Rounds 5-6: batch plane with n = ncols coinciding with batch lengths (2, 3); clustered (nearly coinciding, different) shifts.'
 ASSUMPTIONS = [
     "numeric content: A = L A0 L^H, M = L L^H with A0 = Q (diag(lam) [+ 0.3 T]) Q^H, lam = +-linspace(1, kappa), "
     "L Hermitian with spectrum in [1, 2]; shifts e_c from a fixed per-spectrum alphabet away from the spectrum; "
